@@ -312,6 +312,23 @@ func (ex *Exec) invoke(fr *frame, common *ssa.CallCommon, recv Val, args []Val, 
 			return m(c)
 		}
 	}
+	// contract attached to the interface method (hooks, keepers of other modules)
+	if n, ok := types.Unalias(itype).(*types.Named); ok {
+		if ct := ex.Cfg.IfaceContracts[n.Obj().Name()+"."+mname]; ct != nil {
+			sig := common.Method.Type().(*types.Signature)
+			names := []string{"recv"}
+			ptypes := []types.Type{itype}
+			for i := 0; i < sig.Params().Len(); i++ {
+				pn := sig.Params().At(i).Name()
+				if pn == "" || pn == "_" {
+					pn = fmt.Sprintf("arg%d", i)
+				}
+				names = append(names, pn)
+				ptypes = append(ptypes, sig.Params().At(i).Type())
+			}
+			return ex.applyContractSig(fr, n.Obj().Name()+"."+mname, n.Obj().Pkg(), names, ptypes, sig.Results(), ct, all)
+		}
+	}
 	// resolve to the unique elys implementation
 	if ex.Cfg.Resolver != nil {
 		if fn := ex.Cfg.Resolver(itype, mname); fn != nil {
